@@ -24,7 +24,8 @@ def plans(quick):
                  sim=dict(num=100, depth=12, lists=[['k1'], ['k2']])),
         ]
     return [
-        dict(family=f, opts=opts, checks=[dict(steps=5, slots=2)], gen=dict(steps=4, slots=1), walks=300, walk_len=16,
+        dict(family=f, opts=opts, checks=[dict(steps=5, slots=2) if f != 'kinds' else dict(steps=4, slots=1)],
+             gen=dict(steps=4, slots=1), walks=300, walk_len=16,
              sim=dict(num=700, depth=18))
         for f in ('chain', 'mounts', 'diamond', 'kinds')
     ]
